@@ -107,7 +107,42 @@ def piped(fmt, data, args, use_stdin, use_stdout):
     return {"rc": p.returncode, "out": out}
 
 
+def run_optprobe(case):
+    """Option values at and beyond what the parser should accept: either the parser refuses them (argparse exit status 2),
+    or - the quantifier says 'all widths, heights and skips the option parser accepts' - a complete image comes out."""
+    fmt = case["fmt"]
+    obs = {"counters": {"decodes": 1, "size_checks": 1}, "viols": [], "sets": {"formats": [fmt]}}
+    rng = random.Random(7)
+    pal = M.rand_palette(rng)
+    if fmt == "hrs":
+        data = M.enc_hrs(M.rand_pixels(rng, 8, 3, "random"), pal, 8, 3)
+        base = ["-w", "8", "-r", "3"]
+    else:
+        data = M.enc_max(M.rand_pixels(rng, 16, 3, "random", 2), 16, 3)
+        base = ["-w", "16"]
+    args = [a for a in base if a not in case["drop"]] if case.get("drop") else list(base)
+    if case.get("drop"):
+        it, args = iter(base), []
+        for a in it:
+            if a in case["drop"]:
+                next(it, None)
+                continue
+            args.append(a)
+    args += case["extra"]
+    obs["key"] = "optprobe|%s|%s" % (fmt, " ".join(args))
+    res = D.decode(fmt, data, args)
+    cl = observe.classify(fmt, res)
+    refused_by_parser = res["status"] == "exit" and res.get("code") == 2
+    if not refused_by_parser and cl["kind"] != "complete":
+        obs["viols"].append({"sig": "C18/%s/option-value-accepted-without-image" % fmt,
+                             "detail": {"args": args, "status": res["status"], "exc": res.get("exc"), "outcome": cl["kind"]}})
+    obs["counters"]["parser_refusals" if refused_by_parser else "accepted_option_probes"] = 1
+    return obs
+
+
 def run_case(case):
+    if case.get("optprobe"):
+        return run_optprobe(case)
     fmt = case["fmt"]
     obs = {"counters": {"decodes": 1}, "viols": [], "sets": {"formats": [fmt]}}
     data, args, size, skip = build(case)
@@ -176,6 +211,12 @@ def cases(tier, seed):
             yield c(fmt="hrs", w=w, h=h)
     for w, h in ((320, 192), (319, 3), (640, 2), (1000, 1), (1, 300)):
         yield c(fmt="hrs", w=w, h=h, pipes=(w == 319))
+    for fmt in ("hrs", "max"):
+        for extra in (["-s", "-1"], ["-s", "-2"], ["-s", "0"], ["-s", "1.5"], ["-s", "x"], ["-s", "-0"], ["-s", " 0"]):
+            yield {"fmt": fmt, "optprobe": True, "extra": extra}
+        for opt in ("-w", "-r"):
+            for v in ("0", "-1", "-8", "1.5", "", "x", "-0"):
+                yield {"fmt": fmt, "optprobe": True, "drop": [opt], "extra": [opt, v]}
     # -s N on a real pipe (a pipe cannot seek)
     for skip in (1, 7, 300):
         yield c(fmt="hrs", w=12, h=3, skip=skip, pipes=True)
